@@ -80,7 +80,8 @@ def gdb_signature(b, tool, path, args, cwd, timeout=60, no_input=False):
     return f"{sig.group(1) if sig else 'SIG?'}@{'<'.join(frames) if frames else '?'}"
 
 
-def run_tool(b, tool, data, workroot, timeout=20, args=(), keep=False, want_sig=True, scan_output=True, env_extra=None, no_input=False):
+def run_tool(b, tool, data, workroot, timeout=20, args=(), keep=False, want_sig=True, scan_output=True, env_extra=None, no_input=False,
+             obstacles=()):
     """run one tool on `data` (bytes) in a fresh directory; returns a dict"""
     d = tempfile.mkdtemp(prefix="r-", dir=workroot)
     path = os.path.join(d, "in.exp")
@@ -93,6 +94,14 @@ def run_tool(b, tool, data, workroot, timeout=20, args=(), keep=False, want_sig=
     else:
         with open(path, "wb") as fh:
             fh.write(data)
+    # things that are in the way in the output directory before the tool starts: ("dir", name) / ("file", name)
+    for kind, name in obstacles:
+        pth = os.path.join(out_d, name)
+        os.makedirs(os.path.dirname(pth), exist_ok=True)
+        if kind == "dir":
+            os.makedirs(pth, exist_ok=True)
+        else:
+            open(pth, "w").close()
     t0 = time.time()
     env = tool_env(b)
     if env_extra:
